@@ -9,6 +9,9 @@
            store call the image is copied and the real RecoveryManager::recover runs on it.
 4. TV    : StreamTrace: recovery succeeds, manifest sound, recovered state absorbs everything
            confirmed and invents nothing, failed flush keeps the buffer. Random workloads too.
+5. WBuf  : the repository's second write buffer (write_buffer.rs WriteBuffer::push/flush, the delta-sink
+           worker's buffer): every push/flush sequence of <= 6 operations with one failing or partial
+           upload, and random longer ones, judged by WbufTrace with Streaming.tla's buffer rule.
 """
 import os
 from lib import vlib
@@ -47,6 +50,25 @@ def run(tier):
             k = sorted(runs)[0]
             rep.sample({"scenario": runs[k][0]["scn"]})
         os.remove(tr)
+    # the second write buffer (write_buffer.rs): every op sequence <= 6 with a fault on one flush, plus random ones
+    import itertools
+    wscn = []
+    for n in range(2, 7 if tier == "thorough" else 6):
+        for ops in itertools.product("pf", repeat=n):
+            if "f" not in ops or ops[0] == "f":
+                continue
+            wscn.append({"ops": list(ops), "faults": []})
+            for i, o in enumerate(ops):
+                if o == "f":
+                    for kind in ("fail", "partial"):
+                        wscn.append({"ops": list(ops), "faults": [[i + 1, kind]]})
+    p = vlib.write_ndjson(os.path.join(wd, "wbuf.scn.ndjson"), wscn)
+    tr = os.path.join(wd, "wbuf.ndjson")
+    vlib.vh(["stream", "wbuf", p, "--seed", vlib.seed(), "--n", 20000 if tier == "thorough" else 1500, "--out", tr])
+    runs, bad = vlib.validate_runs(rep, "WbufTrace", "WbufTrace", tr, wd, "write_buffer",
+                                   describe="write buffer (write_buffer.rs) trace rejected: {what}", strip=())
+    nt += sum(1 for evs in runs.values() if any(e["a"] == "wflush" and not e["ok"] for e in evs))
+    os.remove(tr)
     rep.cov["distinct_nontrivial"] = nt
     rep.cov["rule"] = ("a case is one workload of push/flush/compact on the real code with a scripted fault; after every "
                        "mutating store call the real recovery runs on the image; non-trivial = a fault took effect and at "
@@ -55,5 +77,6 @@ def run(tier):
     rep.cov["explanation"] = "exhaustive over the idle states of the sequential Streaming model with <=1 fault for two delta tables; random workloads are samples"
     rep.assumptions += ["a put that reports success stored all its bytes; a failed put stored nothing or a prefix",
                         "rename is atomic; it may be applied although an error is reported",
-                        "flush and compaction do not overlap in these runs (overlap is C13's quantifier)"]
+                        "flush and compaction do not overlap in these runs (overlap is C13's quantifier)",
+                        "WriteBuffer (write_buffer.rs) keeps no manifest: only the buffer rule (nothing accepted is dropped by a failed flush, a successful flush uploads exactly the buffer) is judged for it"]
     return rep.finish()
